@@ -4,11 +4,13 @@
 // real run.StartupProgressLogger.
 //
 // Modes of a history case:
-//   seq   random registration / signal / set sequences with /ready and /health requests in between;
-//   park  deterministic interleavings: a request is parked inside a blocking checker that sits
-//         between other checkers in registration order while the driver flips gates / registers;
-//   conc  4 goroutines flip their own gates, set their own health checks and register new gates
-//         while 2 goroutines issue requests.
+//
+//	seq   random registration / signal / set sequences with /ready and /health requests in between;
+//	park  deterministic interleavings: a request is parked inside a blocking checker that sits
+//	      between other checkers in registration order while the driver flips gates / registers;
+//	conc  4 goroutines flip their own gates, set their own health checks and register new gates
+//	      while 2 goroutines issue requests.
+//
 // Every environment operation is applied and logged under one driver mutex, so operations are
 // totally ordered; a request records how many operations were logged when it was issued and
 // when it was answered.  The driver then searches, for every response, positions
@@ -25,6 +27,7 @@ import (
 	"math/rand/v2"
 	"net/http/httptest"
 	"regexp"
+	"runtime"
 	"sort"
 	"strconv"
 	"strings"
@@ -83,9 +86,38 @@ type jsop struct {
 	HStatus  string `json:"impl_health_status"`
 	HMessage string `json:"impl_health_message"`
 }
+
+// retain mode: a script of steps on the kit/check API
+type jstep struct {
+	K     string `json:"k"` // op | take | eval | observe
+	Op    *jop   `json:"op,omitempty"`
+	Ready bool   `json:"ready,omitempty"` // take / eval: CheckReady (true) or CheckHealth
+	HTTP  bool   `json:"http,omitempty"`  // eval: through the HTTP handler instead of the API
+	ID    int    `json:"id,omitempty"`    // take / observe: which retained response
+}
+type jkept struct {
+	ID     int    `json:"id"`
+	Ready  bool   `json:"ready"`
+	Pos    int    `json:"pos"`
+	Status string `json:"impl_status"`
+	Checks []jchk `json:"impl_checks"`
+}
+
+// burst (seq mode): after At operations, G goroutines issue PerG requests each, concurrently,
+// while nothing else happens; Procs > 0 sets GOMAXPROCS for the burst.
+type jburst struct {
+	At    int `json:"at"`
+	G     int `json:"goroutines"`
+	PerG  int `json:"per_goroutine"`
+	Procs int `json:"gomaxprocs,omitempty"`
+}
+
 type jcase struct {
 	Kind    string   `json:"kind"`
-	Mode    string   `json:"mode"` // seq | park | conc | pulse | startup
+	Mode    string   `json:"mode"` // seq | park | conc | pulse | startup | retain
+	Steps   []jstep  `json:"steps,omitempty"`
+	Kept    []jkept  `json:"kept,omitempty"`
+	Bursts  []jburst `json:"bursts,omitempty"`
 	Ops     []jop    `json:"ops,omitempty"`
 	Reqs    []jreq   `json:"reqs,omitempty"`
 	Pulse   []jpulse `json:"pulse,omitempty"`
@@ -97,10 +129,20 @@ type jcase struct {
 // ---------------------------------------------------------------- the real world
 
 type sval struct{ status, msg string }
+
+// yresp is a Response whose accessors yield the processor: whoever filters or renders it
+// (failingChecks, firstFailureMessage, MarshalJSON of the renamed wrapper) lets other
+// goroutines run in between.
+type yresp struct{ check.BasicResponse }
+
+func (y yresp) Status() check.Status { runtime.Gosched(); return y.BasicResponse.Status() }
+func (y yresp) Message() string      { runtime.Gosched(); return y.BasicResponse.Message() }
+
 type scripted struct {
-	name string // name carried by the response itself (anonymous checks)
-	v    atomic.Pointer[sval]
-	park chan chan struct{} // non-nil: Check announces itself on it and blocks until released
+	yield bool
+	name  string // name carried by the response itself (anonymous checks)
+	v     atomic.Pointer[sval]
+	park  chan chan struct{} // non-nil: Check announces itself on it and blocks until released
 }
 
 func (s *scripted) Check(ctx context.Context) check.Response {
@@ -113,6 +155,9 @@ func (s *scripted) Check(ctx context.Context) check.Response {
 		}
 	}
 	v := s.v.Load()
+	if s.yield {
+		return yresp{check.NewBasicResponse(s.name, check.Status(v.status), v.msg, nil)}
+	}
 	return check.NewBasicResponse(s.name, check.Status(v.status), v.msg, nil)
 }
 
@@ -123,10 +168,11 @@ type world struct {
 	ready  []interface{} // *check.ReadyGate | *scripted
 	health []interface{} // *scripted | *check.FreshnessResponse
 	park   chan chan struct{}
+	kc     *check.Check // the same checkers registered on a Check the driver can call directly
 }
 
 func newWorld() *world {
-	return &world{h: ihttp.NewHealthReadyHandler(zap.NewNop()), park: make(chan chan struct{})}
+	return &world{h: ihttp.NewHealthReadyHandler(zap.NewNop()), park: make(chan chan struct{}), kc: check.NewCheck()}
 }
 
 // apply performs one environment operation on the real objects and logs it, atomically w.r.t.
@@ -138,6 +184,7 @@ func (w *world) apply(o jop) bool {
 	case "reggate":
 		g := check.NewReadyGate(o.Name)
 		w.h.AddNamedReadyCheck(g)
+		w.kc.AddNamedReadyCheck(g)
 		w.ready = append(w.ready, g)
 	case "ready", "unready":
 		if o.I >= len(w.ready) {
@@ -157,6 +204,9 @@ func (w *world) apply(o jop) bool {
 		s.v.Store(&sval{o.Status, o.Msg})
 		if o.Kind == "parker" {
 			s.park = w.park
+		} else {
+			s.yield = o.Kind == "yield"
+			w.kc.AddNamedReadyCheck(check.Named(o.Name, s))
 		}
 		w.h.AddNamedReadyCheck(check.Named(o.Name, s))
 		w.ready = append(w.ready, s)
@@ -174,17 +224,22 @@ func (w *world) apply(o jop) bool {
 		case "fresh":
 			f := check.NewFreshnessResponse(o.Name, time.Hour)
 			w.h.AddNamedHealthCheck(check.NamedFunc(o.Name, func(context.Context) check.Response { return f }))
+			w.kc.AddNamedHealthCheck(check.NamedFunc(o.Name, func(context.Context) check.Response { return f }))
 			w.health = append(w.health, f)
 		case "anon":
 			s := &scripted{name: o.Name}
 			s.v.Store(&sval{o.Status, o.Msg})
 			w.h.AddHealthCheck(s) // not a NamedChecker: the name is whatever the response carries
+			w.kc.AddHealthCheck(s)
 			w.health = append(w.health, s)
 		default:
 			s := &scripted{}
 			s.v.Store(&sval{o.Status, o.Msg})
 			if o.Kind == "parker" {
 				s.park = w.park
+			} else {
+				s.yield = o.Kind == "yield"
+				w.kc.AddNamedHealthCheck(check.Named(o.Name, s))
 			}
 			if o.Kind == "named-via-add" {
 				w.h.AddHealthCheck(check.Named(o.Name, s)) // delegates to AddNamedHealthCheck
@@ -423,10 +478,9 @@ func nats(v []int) string {
 	return vh.List(xs)
 }
 
-func histTerm(c *jcase) string {
-	t := mkTables(c)
+func opsTerm(t *tables, jops []jop) string {
 	var ops []string
-	for _, o := range c.Ops {
+	for _, o := range jops {
 		switch o.Op {
 		case "reggate":
 			ops = append(ops, "ORegGate "+vh.N(t.names[o.Name]))
@@ -448,6 +502,11 @@ func histTerm(c *jcase) string {
 			ops = append(ops, fmt.Sprintf("OSetHealth %s %s %s", vh.Nat(o.I), st(o.Status), t.msg(o.Msg)))
 		}
 	}
+	return vh.List(ops)
+}
+
+func histTerm(c *jcase) string {
+	t := mkTables(c)
 	var reqs []string
 	for _, q := range c.Reqs {
 		var cs []string
@@ -464,7 +523,7 @@ func histTerm(c *jcase) string {
 		reqs = append(reqs, fmt.Sprintf("{| q_ready := %s; q_inv := %s; q_resp := %s; q_ps := %s; q_pr := %s; q_obs := {| r_code := %s; r_status := %s; r_message := %s; r_checks := %s |} |}",
 			vh.Bool(q.Ready), vh.Nat(q.Inv), vh.Nat(q.Resp), vh.Nat(q.Ps), nats(q.Pr), vh.N(uint64(q.Code)), bs, t.msg(q.Message), vh.List(cs)))
 	}
-	return "CHist " + vh.List(ops) + " " + vh.List(reqs)
+	return "CHist " + opsTerm(t, c.Ops) + " " + vh.List(reqs)
 }
 
 // finishHist explains every request, decides the shape signature and records the case.
@@ -532,8 +591,43 @@ func runSeq(w *vh.W, c *jcase) {
 			ri++
 		}
 	}
+	bi := 0
+	burst := func() {
+		for bi < len(c.Bursts) && c.Bursts[bi].At <= len(wd.log) {
+			b := &c.Bursts[bi]
+			b.At = len(wd.log)
+			bi++
+			if b.Procs > 0 {
+				old := runtime.GOMAXPROCS(b.Procs)
+				defer runtime.GOMAXPROCS(old)
+			}
+			var wg sync.WaitGroup
+			var mu sync.Mutex
+			start := make(chan struct{})
+			for g := 0; g < b.G; g++ {
+				wg.Add(1)
+				go func(g int) {
+					defer wg.Done()
+					<-start
+					for k := 0; k < b.PerG; k++ {
+						q, f := wd.request((g+k)%2 == 0)
+						mu.Lock()
+						if f != "" {
+							fails = append(fails, f)
+						}
+						c.Reqs = append(c.Reqs, q)
+						mu.Unlock()
+					}
+				}(g)
+			}
+			close(start)
+			wg.Wait()
+			w.Count("burst_requests", fmt.Sprint(b.G*b.PerG))
+		}
+	}
 	for _, o := range c.Ops {
 		issue()
+		burst()
 		if wd.apply(o) {
 			kept = append(kept, o)
 		}
@@ -541,6 +635,10 @@ func runSeq(w *vh.W, c *jcase) {
 	for ri < len(reqs) {
 		reqs[ri].Inv = len(wd.log)
 		issue()
+	}
+	for bi < len(c.Bursts) {
+		c.Bursts[bi].At = len(wd.log)
+		burst()
 	}
 	c.Ops = kept
 	finishHist(w, c, fails)
@@ -610,6 +708,126 @@ func genSeq(r *rand.Rand, odd bool, many bool) jcase {
 		}
 		if r.IntN(3) == 0 || i == nops-1 {
 			c.Reqs = append(c.Reqs, jreq{Ready: true, Inv: i + 1}, jreq{Ready: false, Inv: i + 1})
+		}
+	}
+	return c
+}
+
+// ---------------------------------------------------------------- retained responses (kit/check API)
+
+func obsChecks(rs check.Responses) []jchk {
+	out := []jchk{}
+	for _, r := range rs {
+		out = append(out, jchk{r.Name(), string(r.Status()), r.Message()})
+	}
+	return out
+}
+
+// runRetain: a Response obtained from CheckReady / CheckHealth is kept while further
+// evaluations (API or HTTP, either endpoint) and operations happen, and only then read.
+func runRetain(w *vh.W, c *jcase) {
+	idx := w.Len()
+	wd := newWorld()
+	ctx := context.Background()
+	held := map[int]check.Response{}
+	meta := map[int]jkept{}
+	c.Kept = nil
+	for _, st := range c.Steps {
+		switch st.K {
+		case "op":
+			wd.apply(*st.Op)
+		case "take":
+			k := jkept{ID: st.ID, Ready: st.Ready, Pos: wd.pos()}
+			if st.Ready {
+				held[st.ID] = wd.kc.CheckReady(ctx)
+			} else {
+				held[st.ID] = wd.kc.CheckHealth(ctx)
+			}
+			meta[st.ID] = k
+		case "eval":
+			switch {
+			case st.HTTP:
+				if _, f := wd.request(st.Ready); f != "" {
+					w.Fail(idx, f, "")
+				}
+			case st.Ready:
+				_ = wd.kc.CheckReady(ctx)
+			default:
+				_ = wd.kc.CheckHealth(ctx)
+			}
+		case "observe":
+			r, ok := held[st.ID]
+			if !ok {
+				continue
+			}
+			k := meta[st.ID]
+			if p := vh.Guard(func() { k.Status, k.Checks = string(r.Status()), obsChecks(r.Checks()) }); p != "" {
+				w.Fail(idx, "panic while reading a retained response: "+p, "")
+			}
+			c.Kept = append(c.Kept, k)
+			delete(held, st.ID)
+		}
+	}
+	c.Ops = append([]jop(nil), wd.log...)
+	// names of the observed checks take part in the ranking
+	tc := *c
+	for _, k := range c.Kept {
+		tc.Reqs = append(tc.Reqs, jreq{Checks: k.Checks})
+	}
+	t := mkTables(&tc)
+	ot := opsTerm(t, c.Ops)
+	var kept []string
+	for _, k := range c.Kept {
+		var cs []string
+		for _, x := range k.Checks {
+			cs = append(cs, t.chk(x))
+		}
+		kept = append(kept, fmt.Sprintf("{| t_ready := %s; t_pos := %s; t_status := %s; t_checks := %s |}", vh.Bool(k.Ready), vh.Nat(k.Pos), st(k.Status), vh.List(cs)))
+	}
+	cc := *c
+	w.Add("CRetained "+ot+" "+vh.List(kept), &cc, len(c.Kept) > 0, "")
+	w.Count("mode", "retain")
+	w.Count("kept", fmt.Sprint(len(c.Kept)))
+}
+
+func genRetain(r *rand.Rand) jcase {
+	c := jcase{Kind: "gen-retain", Mode: "retain"}
+	op := func(o jop) { c.Steps = append(c.Steps, jstep{K: "op", Op: &o}) }
+	ng := 1 + r.IntN(5)
+	for i := 0; i < ng; i++ {
+		op(jop{Op: "reggate", Name: gateNames[i]})
+		if r.IntN(2) == 0 {
+			op(jop{Op: "ready", I: i})
+		}
+	}
+	nh := 1 + r.IntN(4)
+	for i := 0; i < nh; i++ {
+		op(jop{Op: "reghealth", Name: gateNames[11-i], Status: []string{"pass", "pass", "fail", ""}[r.IntN(4)], Msg: msgs[r.IntN(len(msgs))],
+			Kind: []string{"named", "named", "anon", "yield"}[r.IntN(4)]})
+	}
+	id := 0
+	for round, n := 0, 1+r.IntN(3); round < n; round++ {
+		var open []int
+		for t, nt := 0, 1+r.IntN(2); t < nt; t++ {
+			c.Steps = append(c.Steps, jstep{K: "take", Ready: r.IntN(2) == 0, ID: id})
+			open = append(open, id)
+			id++
+		}
+		for e, ne := 0, 1+r.IntN(3); e < ne; e++ {
+			switch r.IntN(4) {
+			case 0: // flip a gate or a health result, then evaluate
+				if r.IntN(2) == 0 {
+					op(jop{Op: []string{"ready", "unready"}[r.IntN(2)], I: r.IntN(ng)})
+				} else {
+					op(jop{Op: "sethealth", I: r.IntN(nh), Status: []string{"pass", "fail"}[r.IntN(2)], Msg: msgs[r.IntN(len(msgs))]})
+				}
+				c.Steps = append(c.Steps, jstep{K: "eval", Ready: r.IntN(2) == 0, HTTP: r.IntN(3) == 0})
+			default:
+				c.Steps = append(c.Steps, jstep{K: "eval", Ready: r.IntN(2) == 0, HTTP: r.IntN(3) == 0})
+			}
+		}
+		for _, i := range open {
+			c.Steps = append(c.Steps, jstep{K: "observe", ID: i})
 		}
 	}
 	return c
@@ -1047,12 +1265,14 @@ func runCase(w *vh.W, c *jcase, setup int) {
 		runPulse(w, c)
 	case "startup":
 		runStartup(w, c)
+	case "retain":
+		runRetain(w, c)
 	}
 }
 
 func main() {
 	w := vh.New("C33", "From Verif Require Import Base.Prelude Model.C33.", "case", "check")
-	w.Rule = "history cases on the real HealthReadyHandler: seq = 3-35 random operations (register gate / scripted ready check / named, anonymous, Freshness health check; Ready / Unready; set health result; a third of them with a status that is neither pass nor fail) with /ready and /health requests in between; park = requests parked inside blocking checkers placed between the other checkers while 0-3 operations (Ready, Unready, register gate, set health) run at each park; conc = 4 goroutines x 12 operations on their own gates / checks + registrations while 2 goroutines issue 6 requests each. pulse = 12 probes of SchedulerPulseCheck around the threshold and rounding boundaries with an injected clock; startup = 2-13 operations on a StartupProgressLogger, both checkers observed after each. Non-trivial: at least one request and two operations (history), any pulse/startup case. Distinct: distinct Gallina terms."
+	w.Rule = "history cases on the real HealthReadyHandler: seq = 3-35 random operations (register gate / scripted ready check / named, anonymous, Freshness health check; Ready / Unready; set health result; a third of them with a status that is neither pass nor fail) with /ready and /health requests in between; park = requests parked inside blocking checkers placed between the other checkers while 0-3 operations (Ready, Unready, register gate, set health) run at each park; conc = 4 goroutines x 12 operations on their own gates / checks + registrations while 2 goroutines issue 6 requests each. burst = a sequential history followed by 1-2 bursts of 8-16 goroutines issuing 1-3 mixed /ready and /health requests each while the state is stable (some checks answer with a Response whose accessors yield the processor; GOMAXPROCS 1, 2 or default), every response must be the atomic one; retain = kit/check API: a Response of CheckReady/CheckHealth is kept across 1-3 further evaluations (other or same endpoint, API or HTTP, possibly after a gate flip) and read afterwards, it must still be the evaluation it came from. pulse = 12 probes of SchedulerPulseCheck around the threshold and rounding boundaries with an injected clock; startup = 2-13 operations on a StartupProgressLogger, both checkers observed after each. Non-trivial: at least one request and two operations (history), any pulse/startup case. Distinct: distinct Gallina terms."
 	var rc jcase
 	if w.ReplayCase(&rc) {
 		setup := len(rc.Ops)
@@ -1117,6 +1337,26 @@ func main() {
 			{Op: "reggate", Name: "late"}, {Op: "ready", I: 1}},
 			Reqs: []jreq{{Ready: true, ParkOps: [][]int{{2, 3}}}}}
 		runPark(w, &c, 2)
+		// a retained /ready response must survive a later /health evaluation (and vice versa)
+		{
+			c := jcase{Kind: "corpus-retained", Mode: "retain"}
+			for _, o := range []jop{{Op: "reggate", Name: "kv"}, {Op: "reggate", Name: "engine"}, {Op: "ready", I: 1},
+				{Op: "reghealth", Name: "bolt", Status: "pass", Kind: "named"}, {Op: "reghealth", Name: "query", Status: "fail", Msg: "unreachable", Kind: "named"},
+				{Op: "reghealth", Name: "sqlite", Status: "pass", Kind: "named"}} {
+				o := o
+				c.Steps = append(c.Steps, jstep{K: "op", Op: &o})
+			}
+			c.Steps = append(c.Steps, jstep{K: "take", Ready: true, ID: 0}, jstep{K: "eval", Ready: false}, jstep{K: "observe", ID: 0},
+				jstep{K: "take", Ready: false, ID: 1}, jstep{K: "eval", Ready: true, HTTP: true}, jstep{K: "observe", ID: 1},
+				jstep{K: "take", Ready: true, ID: 2}, jstep{K: "op", Op: &jop{Op: "ready", I: 0}}, jstep{K: "eval", Ready: true}, jstep{K: "observe", ID: 2})
+			runRetain(w, &c)
+			b := jcase{Kind: "corpus-burst", Mode: "seq", Ops: []jop{{Op: "reggate", Name: "kv"}, {Op: "reggate", Name: "engine"}, {Op: "ready", I: 1},
+				{Op: "regready", Name: "slow-r", Status: "pass", Kind: "yield"},
+				{Op: "reghealth", Name: "bolt", Status: "pass", Kind: "yield"}, {Op: "reghealth", Name: "query", Status: "fail", Msg: "unreachable", Kind: "yield"},
+				{Op: "reghealth", Name: "sqlite", Status: "pass", Kind: "named"}},
+				Bursts: []jburst{{At: 7, G: 16, PerG: 4, Procs: 1}, {At: 7, G: 16, PerG: 4}}}
+			runSeq(w, &b)
+		}
 		p := genPulse(r)
 		sec := int64(time.Second)
 		now := int64(1700000000) * sec
@@ -1133,9 +1373,27 @@ func main() {
 	}
 	for w.Len() < w.N {
 		switch x := r.IntN(100); {
-		case x < 50:
-			c := genSeq(r, x < 15, x >= 45)
+		case x < 38:
+			c := genSeq(r, x < 12, x >= 34)
 			runSeq(w, &c)
+		case x < 44: // stable-state bursts of concurrent requests
+			c := genSeq(r, false, false)
+			c.Kind = "gen-burst"
+			for i := range c.Ops { // some checks answer with a Response that yields the processor
+				if (c.Ops[i].Op == "regready" || c.Ops[i].Op == "reghealth") && c.Ops[i].Kind == "named" && r.IntN(2) == 0 {
+					c.Ops[i].Kind = "yield"
+				}
+			}
+			c.Ops = append(c.Ops, jop{Op: "reghealth", Name: "yielder", Status: []string{"pass", "fail"}[r.IntN(2)], Msg: "slow", Kind: "yield"},
+				jop{Op: "regready", Name: "yielder-r", Status: []string{"pass", "fail"}[r.IntN(2)], Msg: "slow", Kind: "yield"})
+			for b, nb := 0, 1+r.IntN(2); b < nb; b++ {
+				c.Bursts = append(c.Bursts, jburst{At: len(c.Ops) - r.IntN(3)*b, G: 8 + r.IntN(9), PerG: 1 + r.IntN(3), Procs: []int{0, 1, 2}[r.IntN(3)]})
+			}
+			sort.Slice(c.Bursts, func(i, j int) bool { return c.Bursts[i].At < c.Bursts[j].At })
+			runSeq(w, &c)
+		case x < 50:
+			c := genRetain(r)
+			runRetain(w, &c)
 		case x < 72:
 			c, setup := genPark(r)
 			runPark(w, &c, setup)
